@@ -379,8 +379,6 @@ def rule_x6(chk: Check, ir):
             key = f"{r.name}#alt{i}"
             if a.invalid_guard:
                 chk.ok("X6-invalid-gating", key, str(a.pos))
-            elif r.whole_seq_alts:
-                chk.ok("X6-invalid-gating", key, str(a.pos), "whole-rule seq_alts form: invalid rule runs in pass 1 (can only raise)")
             elif r.name.startswith("invalid_") or _inside_rep(a, inv[0]):
                 chk.ok("X6-invalid-gating", key, str(a.pos), "inside an invalid_ rule / repetition")
             else:
